@@ -203,6 +203,10 @@ qb_loop_timer_add(struct qb_loop * lp,
 		return -res;
 	}
 	i = _get_empty_array_position_(my_src);
+	if (i < 0) {
+		pthread_mutex_unlock(&my_src->lock);
+		return i;
+	}
 	assert(qb_array_index(my_src->timers, i, (void **)&t) >= 0);
 	t->state = QB_POLL_ENTRY_ACTIVE;
 	t->install_pos = i;
